@@ -56,6 +56,45 @@ impl Fx for [u8; 3] {
 pub fn fx_from<T: Fx>(b: &[u8]) -> T {
     *bytemuck::checked::try_from_bytes::<T>(b).expect("generator produced an invalid bit pattern")
 }
+/// announced size vs what `init` really writes: `kind INIT_BYTES 0 consumed tail_untouched nbytes bytes.. reparse`
+/// (reparse: 0 = `owned` of exactly the written bytes succeeds) or `kind INIT_BYTES 1 code` / `kind INIT_BYTES 2`
+pub fn probe_init<T, I>(kind: i128, arg: I, out: &mut Vec<i128>)
+where
+    T: UnsizedType + star_frame::unsize::init::UnsizedInit<I> + ?Sized,
+{
+    let n = <T as star_frame::unsize::init::UnsizedInit<I>>::INIT_BYTES;
+    out.push(kind);
+    out.push(n as i128);
+    let mut buf = vec![0xEEu8; n + 4];
+    let total = buf.len();
+    let mut left = 0usize;
+    let r = {
+        let mut sl: &mut [u8] = &mut buf[..];
+        let r = crate::guarded(|| <T as star_frame::unsize::init::UnsizedInit<I>>::init(&mut sl, arg));
+        left = sl.len();
+        r
+    };
+    match r {
+        Ok(Ok(())) => {
+            let consumed = total - left;
+            out.push(0);
+            out.push(consumed as i128);
+            out.push(buf[consumed.max(n).min(total)..].iter().all(|b| *b == 0xEE) as i128);
+            out.push(consumed as i128);
+            out.extend(buf[..consumed].iter().map(|b| *b as i128));
+            out.push(match crate::guarded(|| T::owned(&buf[..consumed])) {
+                Ok(Ok(_)) => 0,
+                _ => 1,
+            });
+        }
+        Ok(Err(e)) => {
+            out.push(1);
+            out.push(crate::err_code(e) as i128);
+        }
+        Err(()) => out.push(2),
+    }
+}
+
 thread_local! {
     /// number of fixed-size values handed out by SHARED accessors whose bytes are not a valid bit pattern of their type
     pub static INVALID: std::cell::Cell<i128> = const { std::cell::Cell::new(0) };
@@ -125,6 +164,10 @@ where
     where
         ExclusiveWrapper<'p, 't, Self::Ptr, P>: ExclusiveRecurse;
 
+    /// `UnsizedInit<I>` of this type for the initializer kinds it supports (0 = DefaultInit, ...): for each kind
+    /// `kind INIT_BYTES tag [consumed tail_untouched nbytes bytes.. reparse]` (see `probe_init`)
+    fn init_probe(out: &mut Vec<i128>);
+
     /// exercise every shared accessor (iteration, indexing) below this pointer; `input` = (address, length)
     /// of the byte string the value was parsed from; pushes what was read and, for every element an
     /// iterator yields, whether its extent lies inside the input
@@ -157,6 +200,9 @@ where
 #[macro_export]
 macro_rules! default_only_inits {
     () => {
+        fn init_probe(out: &mut Vec<i128>) {
+            $crate::nodes::probe_init::<Self, DefaultInit>(0, DefaultInit, out);
+        }
         fn set_init<'p, 't, P>(w: &mut ExclusiveWrapper<'p, 't, Self::Ptr, P>, kind: i128) -> Result<()>
         where
             ExclusiveWrapper<'p, 't, Self::Ptr, P>: ExclusiveRecurse,
@@ -318,6 +364,11 @@ impl<T: Fx, L: Lw> Node for List<T, L> {
             _ => unsupported(),
         }
     }
+    fn init_probe(out: &mut Vec<i128>) {
+        probe_init::<Self, DefaultInit>(0, DefaultInit, out);
+        probe_init::<Self, [T; 3]>(1, [ones::<T>(); 3], out);
+        probe_init::<Self, [T; 300]>(2, [ones::<T>(); 300], out);
+    }
     fn ulist_insert<'p, 't, P, C>(
         w: &mut ExclusiveWrapper<'p, 't, UnsizedListPtr<Self, C>, P>,
         idx: usize,
@@ -401,6 +452,10 @@ impl Node for RemainingBytes {
             1 => w.set_from_init([1u8; 3]),
             _ => unsupported(),
         }
+    }
+    fn init_probe(out: &mut Vec<i128>) {
+        probe_init::<Self, DefaultInit>(0, DefaultInit, out);
+        probe_init::<Self, [u8; 3]>(1, [1u8; 3], out);
     }
     fn ulist_insert<'p, 't, P, C>(
         _w: &mut ExclusiveWrapper<'p, 't, UnsizedListPtr<Self, C>, P>,
